@@ -1863,3 +1863,85 @@ def rule_py_arm_store(rep, floor=150):
                     r.check(not silent or len(silent) == len(arms), key, m.where(first), "%s in %s: every arm of the chain assigns `%s`, nothing after the chain reads it, and arm(s) %s never read it either - the code that consumes %s sits inside only some of the arms" % (
                         fd.name, rel, v, silent, v), detail="consumed in every arm or after the chain")
     return r.done()
+
+
+def rule_py_list_content(rep, floor=15):
+    r = rep.rule("TRIM.py-list-content", "in an arm that has established that X is a list array (isinstance(X, listtypes / ListArray* / ListOffsetArray*)), `X.content` is used whole only when the same arm also uses X's own "
+                 "offsets / starts / stops (a rebuild around the same boundaries) or the result is only inspected for its type; an arm that computes values from X.content alone sees items no list points to "
+                 "(before offsets[0], after offsets[-1], in the gaps of a ListArray)", floor=floor)
+    table = load_table("py_listcontent_exceptions.json")
+    bound = ("offsets", "starts", "stops", "compact_offsets64", "toListOffsetArray64", "broadcast_tooffsets64", "flatten", "offsets_and_flattened", "toRegularArray", "size")
+    for rel in [x for x in pf.all_modules() if "generated_parser" not in x and not x.startswith("_connect/_numba")]:
+        m = pf.module(rel)
+        k = 0
+        for n in ast.walk(m.tree):
+            if not (isinstance(n, ast.Attribute) and n.attr == "content" and isinstance(n.ctx, ast.Load) and isinstance(n.value, ast.Name)):
+                continue
+            v = n.value.id
+            arm = None
+            for p_ in pf.parent_chain(n):
+                if isinstance(p_, ast.If) and any(n is x for b_ in p_.body for x in ast.walk(b_)):
+                    t = ast.unparse(p_.test)
+                    if ("isinstance(%s," % v) in t and ("listtypes" in t or "ListOffsetArray" in t or "ListArray" in t) and "RegularArray)" not in t.replace("ak.layout.RegularArray, ", ""):
+                        arm = p_
+                        break
+            if arm is None:
+                continue
+            par = getattr(n, "_parent", None)
+            if isinstance(par, ast.Subscript) and par.value is n and isinstance(par.slice, ast.Slice):
+                continue    # trimmed
+            if isinstance(par, ast.Call) and (pf.dotted(par.func) or "").endswith((".type", "describe.type", "isinstance")):
+                continue    # only its type is looked at
+            k += 1
+            fn = getattr(_owner_func(n), "name", "<module>")
+            key = "%s:%s:%s" % (rel, fn, v)
+            uses_bounds = any(isinstance(x, ast.Attribute) and x.attr in bound and isinstance(x.value, ast.Name) and x.value.id == v for b_ in arm.body for x in ast.walk(b_))
+            if not uses_bounds and key in table:
+                r.excepted(key, table[key])
+                r.ok(key)
+                continue
+            r.check(uses_bounds, "%s#%d" % (key, k), m.where(n), "%s in %s uses `%s.content` whole in an arm that never looks at %s's offsets/starts/stops: content that no list of %s points to becomes part of the result" % (fn, rel, v, v, v), detail="boundaries used in the same arm")
+    return r.done()
+
+
+def rule_py_array_outermost(rep, floor=1):
+    r = rep.rule("TYPEPARSE.array-outermost", "in the type parser (toast) the content of an ak.types.ArrayType is parsed with high_level=False: only the outermost dimension of a high-level type is an ArrayType, "
+                 "an ArrayType nested in an ArrayType prints the same but is a different, unequal type", floor=floor)
+    m = pf.module("_typeparser/parser.py")
+    fd = m.funcs.get("toast")
+    if fd is None:
+        raise AnalysisError("_typeparser/parser.py: toast not found")
+    k = 0
+    for c in ast.walk(fd):
+        if isinstance(c, ast.Call) and (pf.dotted(c.func) or "").endswith("ArrayType") and c.args:
+            for t in ast.walk(c.args[0]):
+                if isinstance(t, ast.Call) and isinstance(t.func, ast.Name) and t.func.id == "toast" and len(t.args) >= 2:
+                    k += 1
+                    hl = t.args[1]
+                    r.check(isinstance(hl, ast.Constant) and hl.value is False, "toast:ArrayType#%d" % k, m.where(t), "toast builds an ArrayType around `%s`: the content is parsed with high_level=%s, so inner dimensions become ArrayTypes too" % (ast.unparse(t)[:50], ast.unparse(hl)), detail="content parsed low-level")
+    return r.done()
+
+
+def rule_py_bytes_str_arms(rep, floor=4):
+    r = rep.rule("FAMILY.py-bytes-str", "where the Python layer converts string-like data by kind, the 'byte' / 'bytestring' arms produce bytes (`.__bytes__()`) and the 'char' / 'string' arms produce str (`.__str__()`): "
+                 "the crossed call yields the repr text \"b'...'\" as a str, or fails on undecodable bytes", floor=floor)
+    want = {"byte": "__bytes__", "bytestring": "__bytes__", "char": "__str__", "string": "__str__"}
+    for rel in [x for x in pf.all_modules() if "generated_parser" not in x]:
+        m = pf.module(rel)
+        k = 0
+        for c in ast.walk(m.tree):
+            if not (isinstance(c, ast.Call) and isinstance(c.func, ast.Attribute) and c.func.attr in ("__bytes__", "__str__") and not c.args):
+                continue
+            kinds = []
+            for t, inb in pf.enclosing_tests(c)[:1]:
+                if not inb:
+                    continue
+                for x in ast.walk(t):
+                    if isinstance(x, ast.Compare) and len(x.ops) == 1 and isinstance(x.ops[0], ast.Eq) and isinstance(x.comparators[0], ast.Constant) and x.comparators[0].value in want and "__array__" in ast.unparse(x.left):
+                        kinds.append(x.comparators[0].value)
+            if len(set(want[kd] for kd in kinds)) != 1:
+                continue
+            k += 1
+            r.check(c.func.attr == want[kinds[0]], "%s:%s#%s%d" % (rel, getattr(_owner_func(c), "name", "<module>"), kinds[0], k), m.where(c), "%s: under `__array__ == %r` the value is converted with %s(); %s data must go through %s()" % (
+                rel, kinds[0], c.func.attr, kinds[0], want[kinds[0]]), detail=want[kinds[0]])
+    return r.done()
